@@ -45,6 +45,8 @@ def explore(ctx):
     cc.explore_compute(ctx, oracle, n_random_quick=4000, n_random_thorough=40000,
                        exhaustive=(6, 7) if ctx.quick else (8, 9))
     cc.reused_criteria_stream(ctx, 150 if ctx.quick else 1500)
+    from . import grid_common
+    grid_common.reused_adjacency_stream(ctx, 80 if ctx.quick else 800)
     cc.infinity_tie_stream(ctx, 300 if ctx.quick else 3000, 'c04_inf_tie')
     cc.decimal_stream(ctx, 1000 if ctx.quick else 10000)
     cc.decimal_stream(ctx, 800 if ctx.quick else 8000, sum_negative=True)
